@@ -166,6 +166,27 @@ package processor
 //@   ensures [string-order] implies(uf("rankOf", dTypeRank, valueA, op) == RANK_STRING && uf("rankOf", dTypeRank, valueB, op) == RANK_STRING && typedKey(valueA, op) && typedKey(valueB, op), (result == EQUAL) == (uf("strOf", string, valueA) == uf("strOf", string, valueB)) && (result == dirOf(LESS, asc)) == (uf("strOf", string, valueA) < uf("strOf", string, valueB)))
 //@ end
 
+// C05/C06: the merge comparator (cross-batch merge in sortProcessor.Process and
+// the k-way merge of parallel sort chains) must be the SAME order as the
+// in-batch comparator less(): both hand compareValues the value of record a
+// first, the value of record b second, and the sort element's own direction
+// and operation, and report "a before b" exactly when the first key that
+// differs says LESS.  (compareValues puts missing values last BEFORE it applies
+// the direction, so "descending = ascending with the operands swapped" is a
+// different order.)
+//@ func (*sortProcessor).lessDirectRead
+//@   props C05 C06
+//@   assumecalleerequires
+//@   site call compareValues #1:
+//@     assert [first-record-first-with-the-elements-own-direction] arg0 == valA && arg1 == valB && arg2 == element.SortByAsc && arg3 == element.Op
+//@ end
+//@ func (*sortProcessor).less
+//@   props C05 C06
+//@   assumecalleerequires
+//@   site call compareValues #1:
+//@     assert [the-elements-own-direction] arg2 == element.SortByAsc && arg3 == element.Op
+//@ end
+
 // ---- C06 (one or several upstream streams): consumers skip a stream that
 // reports IsExhausted, and a k-way merge parks the unconsumed tail of an input
 // with SetUnusedDataFromLastFetch.  Representation invariant of CachedStream:
@@ -240,4 +261,15 @@ package processor
 //@   loop 1:
 //@     invariant dp.mergeSettings.numReturned == 0
 //@   ensures [limit-count-restarts-with-each-pass] dp.mergeSettings.numReturned == 0
+//@ end
+
+// C05 (`head n` yields the n newest matches): whether a pipeline may be split
+// into parallel chains in front of a command is decided from the command's
+// planning flags (DoesInputOrderMatter / CanParallelSearch).  head takes the
+// FIRST n rows of its input, with or without a condition, so it always needs
+// its input in order and never ignores it: a pipeline is not split in front of
+// any head.
+//@ func NewHeadDP
+//@   props C05
+//@   ensures [head-always-needs-its-input-in-order] result != nil && result.inputOrderMatters && !result.ignoresInputOrder
 //@ end
